@@ -369,8 +369,10 @@ def main():
             print('VIOLATION property=%s replay=%s' % (prop, path), flush=True)
         sys.exit(1)
     if harness_error:
-        for h in harness_error:
-            log('HARNESS-ERROR ' + h)
+        for h in harness_error[:6]:
+            log('HARNESS-ERROR ' + h[:1500])
+        if len(harness_error) > 6:
+            log('HARNESS-ERROR ... and %d more (see evidence file)' % (len(harness_error) - 6))
         sys.exit(2)
     sys.exit(0)
 
